@@ -330,6 +330,14 @@ CAMPAIGNS = {
         {'name': 'c01-generic', 'profile': 'C01', 'mode': 'plain',
          'nontrivial': nt_serve_and_exec, 'weight': 1.0,
          'rule': 'generic programs and histories'},
+        {'name': 'c01-differential', 'profile': 'C01', 'mode': 'plain',
+         'nontrivial': nt_serve_and_exec, 'weight': 1.0,
+         'scratch_diff': True, 'params': REBUILD_HEAVY,
+         'rule': 'model-free differential after every cached build: the '
+                 'same build is re-run by the implementation itself on the '
+                 'restored pre-state without the previous outputs, cache '
+                 'and emptied created directories; value, exception type '
+                 'and tree must be equal'},
         {'name': 'c01-rebuilds', 'profile': 'C01', 'mode': 'plain',
          'nontrivial': nt_serve_and_exec, 'weight': 1.0,
          'params': REBUILD_HEAVY,
@@ -626,6 +634,8 @@ def run_case(camp, seed, tier='quick', prop=None):
         sc = apply_post(sc, post)
     if camp.get('foreign_live'):
         sc['config']['foreign_live'] = True
+    if camp.get('scratch_diff'):
+        sc['config']['scratch_diff'] = True
     if prop in ('C01', 'C05', 'C06', 'C11', 'C16') and \
             camp.get('mode', 'plain') == 'plain':
         sc['config']['m1_crosscheck'] = True
